@@ -4,8 +4,12 @@ LEAN_MODULE = "Hw.Props.C12"
 NS = "Hw.Props.C12."
 THEOREMS = [NS + t for t in """C12_dup_equiv C12_equiv_refl C12_equiv_symm C12_equiv_trans C12_equiv_fields C12_dup_fields C12_dup_caches_invalid
 C12_topo_userdata_not_copied C12_dup_then_history_independent C12_dup_commutes_history C12_copy_behaves_as_original C12_equiv_step
-C12_bump_disjoint C12_bump_inside C12_bump_aligned C12_bump_fresh C12_provenance_disjoint C12_provenance_distinct_blocks""".split()]
-TRUSTED = ["harness/h_dup.c + harness/dup_walk.h (recording allocator, exhaustive pointer walk, public attribute text, frame/twin comparisons) and "
+C12_bump_disjoint C12_bump_inside C12_bump_aligned C12_bump_fresh C12_provenance_disjoint C12_provenance_distinct_blocks
+C12_gen_no_shallow_pointer_copy C12_gen_writes_only_into_copy C12_gen_memcpy_fixed_up C12_gen_fresh_struct_initialised
+C12_gen_obj_pointer_members_covered C12_gen_infos_deep_copied""".split()]
+TRUSTED = ["tools/gen_dup.py (struct-member parser + statement classifier over the dup functions, fails closed) for the allocation-discipline table Hw.Gen.DupAlloc; "
+           "local variables are classified by their last assignment in source order (straight-line approximation)",
+           "harness/h_dup.c + harness/dup_walk.h (recording allocator, exhaustive pointer walk, public attribute text, frame/twin comparisons) and "
            "harness/dump.h + lean/Driver/Topo.lean + lean/Driver/Dup.lean (parsers, per-line judgement)",
            "PARTIAL: non-aliasing of the two heaps is CHECKED on generated topologies by the provenance walk (every pointer field reachable from the "
            "copy lies in a block of the recording allocator, every such block is reached exactly once, none intersects a block of the original) and by "
